@@ -109,6 +109,12 @@ Definition src_arity : list (string * (N * N)) :=
    ("TIME$", (0, 0));
    ("VAL", (1, 1))]%N.
 
+Definition src_triple_merges : list (operator * operator * operator) :=
+  [(OLt, OGt, ONe); (OLt, OEq, OLe); (OEq, OGt, OGe); (OEq, OLt, OLe); (OGt, OLt, ONe); (OGt, OEq, OGe)].
+
+Definition src_double_merges : list (operator * operator * operator) :=
+  [(OEq, OGt, OGe); (OEq, OLt, OLe); (OGt, OEq, OGe); (OLt, OEq, OLe); (OLt, OGt, ONe); (OGt, OLt, ONe)].
+
 Definition src_E_Break : N := 0%N.
 Definition src_E_NextWithoutFor : N := 1%N.
 Definition src_E_SyntaxError : N := 2%N.
